@@ -33,6 +33,8 @@ pub mod slab {
     /// the value v has been taken out of a slab by `remove` (monotone witness; values are not Clone, so a removed value
     /// exists once)
     pub uninterp spec fn w_slab_removed<T>(v: T) -> bool;
+    /// the entry under this key has been looked at (`get`, `contains`; monotone witness)
+    pub uninterp spec fn w_slab_looked(key: usize) -> bool;
     impl<T> Slab<T> {
         /// ASSUMED view: a finite map from keys to values
         pub uninterp spec fn view(&self) -> Map<usize, T>;
@@ -40,7 +42,7 @@ pub mod slab {
         pub uninterp spec fn next_key(&self) -> usize;
         #[verifier::external_body] pub fn new() -> (r: Slab<T>) ensures r@ == Map::<usize, T>::empty(), { unimplemented!() }
         #[verifier::external_body] pub fn get(&self, key: usize) -> (r: Option<&T>)
-            ensures self@.dom().contains(key) ==> r == Some(&self@[key]), !self@.dom().contains(key) ==> r is None,
+            ensures self@.dom().contains(key) ==> r == Some(&self@[key]), !self@.dom().contains(key) ==> r is None, w_slab_looked(key),
         { unimplemented!() }
         /// (the real remove panics on a vacant key)
         #[verifier::external_body] pub fn remove(&mut self, key: usize) -> (r: T)
@@ -57,7 +59,7 @@ pub mod slab {
         { unimplemented!() }
         #[verifier::external_body] pub fn len(&self) -> (r: usize) ensures r == self@.dom().len(), { unimplemented!() }
         #[verifier::external_body] pub fn is_empty(&self) -> (r: bool) ensures r == (self@.dom().len() == 0), { unimplemented!() }
-        #[verifier::external_body] pub fn contains(&self, key: usize) -> (r: bool) ensures r == self@.dom().contains(key), { unimplemented!() }
+        #[verifier::external_body] pub fn contains(&self, key: usize) -> (r: bool) ensures r == self@.dom().contains(key), w_slab_looked(key), { unimplemented!() }
         #[verifier::external_body] pub fn vacant_key(&self) -> (r: usize) ensures !self@.dom().contains(r), r == self.next_key(), { unimplemented!() }
     }
 }
@@ -89,7 +91,9 @@ pub mod async_task {
     #[verifier::external_body] #[verifier::reject_recursive_types(M)] #[derive(Debug)]
     pub struct Runnable<M> { _p: std::marker::PhantomData<M> }
     impl<M> Runnable<M> {
-        #[verifier::external_body] pub fn metadata(&self) -> (r: &M) { unimplemented!() }
+        /// the metadata the task was spawned with (here: its key in the executor's task table)
+        pub uninterp spec fn spec_meta(&self) -> M;
+        #[verifier::external_body] pub fn metadata(&self) -> (r: &M) ensures *r == self.spec_meta(), { unimplemented!() }
         /// ASSUMED: polls the task once (user code); no effect contracts can see
         #[verifier::external_body] pub fn run(self) -> (r: bool) ensures w_ran(self), { unimplemented!() }
         /// the waker of the task this runnable belongs to
